@@ -14,8 +14,8 @@ PROPS["C06"] = {
     "title": "Three-valued connectives obey their truth tables",
     "models": lambda tier: [
         {"module": "MC_Tri",
-         "constants": {"MaxK": q(tier, 3, 5), "Dev": DEV_CURRENT},
-         "invariants": ["EngInAdm", "LangIsAdm", "Lifted", "Emit"],
+         "constants": {"MaxK": q(tier, 3, 5), "Dev": DEV_CURRENT, "EmitAlts": "FALSE"},
+         "invariants": ["EngInAdm", "LangIsAdm", "Lifted", "OrderFree", "LangOrderFree", "Emit"],
          "forms": ["and_chain", "or_chain", "map_group", "seq_group", "not1", "all_seq", "of_seq",
                    "all_map", "of_map", "klist", "kall", "kof", "klist_mix", "kall_mix", "kof_mix", "knot"],
          "workers": q(tier, 4, 8)},
@@ -25,13 +25,6 @@ PROPS["C06"] = {
     "chunk": 2000,
 }
 
-# texts for MANIFEST.json
-MANIFEST_TEXT = {}
-MANIFEST_TEXT["C06"] = {
-    "level": "Exhaustive within the bound: TLC enumerates every connective form (binary chains, mapping/sequence groups, not, all()/of() over identifiers, plain/all()/of() key lists, batched and mixed) x arity 1..3 (thorough 1..5) x every {T,F,M} vector x every threshold, checks the solver-loop model against the truth tables (TauTri), and each enumerated case is replayed through Rule::matches (three-valued result observed via the rule and its negation) and the recorded trace is validated by TLC against the language-layer semantics. Complete for the stated arities; larger arities are not covered.",
-    "note": "Trusts TLC, the Json module, serde_yaml rendering, and the engine's own `not` for three-valued observation (itself one of the enumerated forms). Bounded arity.",
-    "technique": "TLA+ spec + TLC model checking; TLC-enumerated cases replayed into the engine; recorded traces validated by TLC (TraceTau)",
-}
 
 PROPS["C02"] = {
     "title": "Verdicts follow the documented rule language",
@@ -39,11 +32,6 @@ PROPS["C02"] = {
     "gens": lambda tier: [{"topic": "lang", "n": q(tier, 1500, 30000)}],
     "rules": ["oracle", "tri_oracle", "tri_both", "load_outcome", "load_panic", "match_panic"],
     "chunk": 1500,
-}
-MANIFEST_TEXT["C02"] = {
-    "level": "todo",
-    "note": "todo",
-    "technique": "TLA+ language-layer semantics (TauLang) evaluated by TLC on traces recorded from the engine",
 }
 
 DEV_COND = '{}'
@@ -59,16 +47,6 @@ PROPS["C05"] = {
     "rules": ["oracle", "load_outcome", "load_panic", "match_panic"],
     "chunk": 400,
 }
-MANIFEST_TEXT["C05"] = {"level": "todo", "note": "todo", "technique": "TLA+ reference grammar vs Pratt model, TLC; replay + trace validation"}
-
-PROPS["C01"] = {
-    "title": "Optimisation never changes a verdict",
-    "models": lambda tier: [],
-    "gens": lambda tier: [{"topic": "opt", "n": q(tier, 600, 12000)}],
-    "rules": ["den", "opt_panic", "match_panic"],
-    "chunk": 300,
-}
-MANIFEST_TEXT["C01"] = {"level": "todo", "note": "todo", "technique": "TLA+ life-cycle spec (TauRule): denotation bound at first observation; traces of all 17 switch states validated by TLC"}
 
 PROPS["C03"] = {
     "title": "An accepted rule can always be evaluated (no panic after load)",
@@ -83,16 +61,6 @@ PROPS["C03"] = {
     "rules": ["load_outcome", "load_panic", "opt_panic", "match_panic", "validate_panic", "ser_panic"],
     "chunk": 100,
 }
-MANIFEST_TEXT["C03"] = {"level": "todo", "note": "todo", "technique": "TLA+ condition grammar model (MC_Cond) + TauRule; replay with adversarial documents; TLC trace validation"}
-
-PROPS["C12"] = {
-    "title": "Loading, optimising and matching are deterministic and pure",
-    "models": lambda tier: [],
-    "gens": lambda tier: [{"topic": "pure", "n": q(tier, 400, 8000)}],
-    "rules": ["den", "print_differs", "opt_panic", "match_panic"],
-    "chunk": 300,
-}
-MANIFEST_TEXT["C12"] = {"level": "todo", "note": "todo", "technique": "TLA+ life-cycle spec; repeated/threaded traces validated by TLC"}
 
 PROPS["C13"] = {
     "title": "validate() agrees with matches() on the rule's own examples",
@@ -101,16 +69,6 @@ PROPS["C13"] = {
     "rules": ["validate", "validate_panic", "validate_unbound"],
     "chunk": 500,
 }
-MANIFEST_TEXT["C13"] = {"level": "todo", "note": "todo", "technique": "TLA+ Validate action defined from the bound denotation; TLC trace validation"}
-
-PROPS["C14"] = {
-    "title": "Rule serialisation round-trips",
-    "models": lambda tier: [],
-    "gens": lambda tier: [{"topic": "ser", "n": q(tier, 600, 12000)}],
-    "rules": ["den", "ser_panic", "ser_error", "reload_fails", "reload_differs", "load_paths_differ", "load_panic"],
-    "chunk": 400,
-}
-MANIFEST_TEXT["C14"] = {"level": "todo", "note": "todo", "technique": "TLA+ Serialise/Reload actions; TLC trace validation"}
 
 PROPS["C11"] = {
     "title": "Verdict is independent of how the document is represented",
@@ -119,22 +77,6 @@ PROPS["C11"] = {
     "rules": ["den", "match_panic"],
     "chunk": 300,
 }
-MANIFEST_TEXT["C11"] = {"level": "todo", "note": "todo", "technique": "TLA+ life-cycle spec: one denotation per (rule, abstract document); TLC trace validation over 8 representations"}
-
-PROPS["C04"] = {
-    "title": "Loading arbitrary text returns a rule or an error, never a panic",
-    "models": lambda tier: [
-        {"module": "MC_Tok", "constants": {"MaxLen": q(tier, 3, 4)},
-         "invariants": ["InRange", "AgreesWithScan"], "props": ["Progress", "Terminates"],
-         "no_cases": True, "workers": 8},
-        {"module": "MC_Ident", "constants": {"MaxLen": q(tier, 3, 4), "Dev": "{}", "IcBuild": "FALSE"},
-         "invariants": ["NoPanic", "WriteRead", "Emit"], "forms": ["ok", "err", "unk"], "workers": 8},
-    ],
-    "gens": lambda tier: [{"topic": "fuzz", "n": q(tier, 3000, 60000)}],
-    "rules": ["load_panic", "ident_panic"],
-    "chunk": 3000,
-}
-MANIFEST_TEXT["C04"] = {"level": "todo", "note": "todo", "technique": "TLA+ step-machine models of the tokeniser and of pattern parsing (progress, index safety, termination) checked by TLC; exhaustive short strings and seeded fuzz replayed; traces validated by TLC"}
 
 PROPS["C07"] = {
     "title": "String predicates are exact for all strings, single or batched",
@@ -149,21 +91,6 @@ PROPS["C07"] = {
     "rules": ["oracle", "ident_parse", "ident_panic", "load_outcome", "match_panic"],
     "chunk": 1000,
 }
-MANIFEST_TEXT["C07"] = {"level": "todo", "note": "todo", "technique": "TLA+ string relations and Aho-Corasick hit-set model (TauStr), TLC; exhaustive small alphabets replayed; TLC trace validation"}
-
-PROPS["C09"] = {
-    "title": "Numeric comparisons and casts are order-correct and overflow-safe",
-    "models": lambda tier: [
-        {"module": "MC_Num", "constants": {},
-         "invariants": ["Trichotomy", "Unions", "NaNFalse", "EngSound", "Emit"],
-         "forms": ["key", "intkey", "fltkey", "strkey", "cond_int", "cond_int_rev", "cond_flt", "cond_flt_rev",
-                   "cond_int_fields", "cond_flt_fields", "cond_str_fields"], "workers": 8},
-    ],
-    "gens": lambda tier: [{"topic": "num", "n": q(tier, 500, 20000)}],
-    "rules": ["oracle", "tri_oracle", "tri_both", "match_panic", "load_outcome"],
-    "chunk": 150,
-}
-MANIFEST_TEXT["C09"] = {"level": "todo", "note": "todo", "technique": "TLA+ exact digit-sequence arithmetic (TauNum) checked by TLC; boundary universe replayed; TLC trace validation incl. random 64-bit values"}
 
 DEV_PATH = '{}'
 PROPS["C10"] = {
@@ -176,17 +103,75 @@ PROPS["C10"] = {
     "rules": ["find_value", "find_panic", "oracle", "tri_oracle", "match_panic"],
     "chunk": 400,
 }
-MANIFEST_TEXT["C10"] = {"level": "todo", "note": "todo", "technique": "TLA+ Find (descent) vs the engine's cursor walk (TauDoc), TLC; every document shape x path replayed on four representations; TLC trace validation"}
 
-PROPS["C08"] = {
-    "title": "List quantifiers count the members the author wrote",
+
+PROPS["C17"] = {
+    "title": "Order of operands never decides whether and/or is true",
     "models": lambda tier: [
-        {"module": "MC_Quant", "constants": {"MaxK": q(tier, 3, 5)},
-         "invariants": ["CountLaw", "Emit"],
-         "forms": ["key_plain", "key_all", "key_of", "seq_all", "seq_of", "idl_all", "idl_of"], "workers": 8},
+        {"module": "MC_Tri",
+         "constants": {"MaxK": q(tier, 3, 4), "Dev": DEV_CURRENT, "EmitAlts": "TRUE"},
+         "invariants": ["OrderFree", "LangOrderFree", "Emit"],
+         "forms": ["and_chain", "or_chain", "map_group", "seq_group", "all_seq", "of_seq", "klist", "kall", "kof"],
+         "workers": q(tier, 4, 8)},
     ],
-    "gens": lambda tier: [{"topic": "quant", "n": q(tier, 500, 10000)}],
-    "rules": ["oracle", "den", "alt_fails", "load_outcome", "match_panic"],
+    "gens": lambda tier: [{"topic": "perm", "n": q(tier, 600, 12000)}],
+    "rules": ["den", "alt_fails", "match_panic"],
     "chunk": 500,
 }
-MANIFEST_TEXT["C08"] = {"level": "todo", "note": "todo", "technique": "TLA+ count semantics (TauLang) and the law quantified = explicit form, TLC; both forms replayed as one case with one denotation; TLC trace validation"}
+
+PROPS["C15"] = {
+    "title": "ignore_case build equals default build with every pattern i-prefixed",
+    "needs_ic": True,
+    "models": lambda tier: [
+        {"module": "MC_Ident", "constants": {"MaxLen": q(tier, 3, 4), "Dev": "{}", "IcBuild": "TRUE"},
+         "invariants": ["NoPanic", "WriteRead"], "no_cases": True, "workers": 8},
+    ],
+    "gens": lambda tier: [{"topic": "ic+lang", "n": q(tier, 500, 10000)}, {"topic": "ic+str", "n": q(tier, 300, 6000)}],
+    "rules": ["den", "oracle", "ic_load_differs", "load_panic", "match_panic"],
+    "chunk": 400,
+}
+
+
+# ------------------------------------------------------------------------------------------
+# texts for MANIFEST.json
+COMMON_NOTE = ("Trusted: TLC, the CommunityModules Json/IOUtils, serde_yaml/serde_json as renderers, the harness's "
+               "mechanical JSON->YAML rendering. Bounded: exhaustive only within the constants recorded in the evidence; "
+               "seeded random cases beyond. Known findings (known_findings.json) are attributed by a syntactic trigger "
+               "evaluated in TLA+ (spec/TauKnown.tla) and are not re-reported. ")
+T = "explicit TLA+ specification checked with TLC; TLC-enumerated cases and seeded random cases replayed through the engine; recorded API traces validated against the specification by TLC (TraceTau)"
+MANIFEST_TEXT = {
+ "C01": {"level": "Trace validation of the life-cycle machine (spec/TauRule.tla): for seeded random rules (depth 3, up to 4 identifiers, lists, nested blocks, casts, quantifiers) every one of the 17 switch states is a separate object of one case whose denotation is bound by the first observation; TLC rejects any later verdict that differs and any optimise() that panics. Documents are generated in three modes (negation-free rules; documents on which every predicate is definite; unrestricted) so that most comparisons are strict; comparisons on indefinite documents under a negation are attributed to the recorded known findings about operand reordering. Random exploration, not exhaustive; the optimiser itself is not modelled pass by pass.",
+         "note": COMMON_NOTE + "Needs no oracle (self-consistency); the language-layer oracle is evaluated as well but not counted here.", "technique": T},
+ "C02": {"level": "The language layer spec/TauLang.tla (mapping = conjunction in written order, sequence = disjunction, pattern kinds, numbers, casts, quantifiers, nested mappings, three-valued condition) is evaluated by TLC on every recorded (rule, document) pair: the engine's verdict and three-valued result must lie in the admissible set. Seeded random rules and rule-directed documents (1.5k quick / 30k thorough cases); results the documentation leaves open are admissible sets, not guesses.",
+         "note": COMMON_NOTE + "Oracle is sound only inside the rule shapes the generators produce (well typed by construction); float text beyond 15 significant digits and non-decimal numeric strings are left open.", "technique": T},
+ "C03": {"level": "TLC enumerates every condition over identifiers, and/or/not, parentheses, all()/of(), casts, numbers and comparison operators up to 3 (thorough 4) alphabet elements, checks the Pratt model against the reference grammar (operands of and/or/not are predicates, identifiers exist), and each string is loaded for real: what the grammar rejects must be rejected, and every accepted rule is optimised under 6 (thorough 17) switch states, matched against adversarial documents (every value kind incl. 64-bit extremes, NaN, empty and mixed containers) and validated - any panic is a violation. Plus seeded random rules with non-mapping examples.",
+         "note": COMMON_NOTE + "Panics are observed with catch_unwind in a release build with overflow checks and debug assertions on.", "technique": T},
+ "C04": {"level": "Model: the condition scanner as a TLA+ step machine over all strings of length <= 3 (thorough 4) over 28 character classes (progress, position in range, termination under weak fairness, agreement with the recursive definition); the pattern-text cascade over all strings <= 3 (thorough 4) over the 13 characters with a syntactic role (no slice out of range, write/read law). Conformance: every enumerated pattern string and 3k (thorough 60k) fuzz cases (token soups, pattern soups, YAML shapes in every position, mutated repository rule files, nesting to depth 64) are loaded through from_str, from_value and the core entry points; outcome must be ok or err, and for modelled inputs the outcome/kind/argument the specification predicts.",
+         "note": COMMON_NOTE + "Says nothing about serde_yaml's own parser beyond not panicking on the fuzzed inputs; stack exhaustion beyond depth 64 is out of scope.", "technique": T},
+ "C05": {"level": "Exhaustive within the bound: every token string of length <= 5 (thorough 6: 299,593 strings) over {A,B,C,and,or,not,(,)} is parsed by the TLA+ Pratt model and by the reference grammar (TLC checks they agree and that text rendering tokenises back); every accepted string and every short rejected one is loaded for real and matched under all {T,F,M} assignments of its identifiers; load outcome and every verdict must be what the reference parse yields.",
+         "note": COMMON_NOTE + "Spacing variants and keyword-like identifier names are covered by the C04 condition fuzz (load outcome decided by the grammar) rather than exhaustively.", "technique": T},
+ "C06": {"level": "Exhaustive within the bound: TLC enumerates every connective form (binary chains, mapping/sequence groups, not, all()/of() over identifiers, plain/all()/of()/not() key lists, batched and mixed) x arity 1..3 (thorough 1..5) x every {T,F,M} vector x every threshold, checks the solver-loop model against the truth tables and their set-lifted forms, and each case is replayed through Rule::matches (three-valued result observed via the rule and its negation) and validated by TLC against the language layer.",
+         "note": COMMON_NOTE + "Three-valued results are observed through the engine's own `not`, itself one of the enumerated forms.", "technique": T},
+ "C07": {"level": "Exhaustive within the bound: alphabet {a,b,A}, needles <= 2, haystacks <= 3 (thorough 4), kinds exact/prefix/suffix/contains/any and 11 regex shapes, with and without the i flag; all singles and all ordered pairs with needles <= 1: TLC checks the hit-set model of the batched automaton against the documented relations, every case is replayed (also optimised) and validated. Pattern syntax itself (what 'x*', '*x', quotes, i mean) is checked on every string <= 3 (4) over the 13 syntax characters via into_identifier. Seeded: long and multi-byte strings, lists of 1-5 patterns, arrays.",
+         "note": COMMON_NOTE + "Regexes outside the seven-construct sub-language are not given a semantic oracle.", "technique": T},
+ "C08": {"level": "TLC enumerates lists of 1..3 (thorough 5) members x six member families (batched strings, mixed batch classes, case-mixed, numbers, booleans, nested mappings) x seven quantifier forms x thresholds 0..k+1, checks the law 'quantified form = explicit form' in the language layer, and replays both writings as ONE case: TLC requires a single denotation and the count semantics. Seeded: lists up to 6 with subset expansion of of(n).",
+         "note": COMMON_NOTE + "Lists with duplicate members are excluded ('distinct members' is ambiguous).", "technique": T},
+ "C09": {"level": "Exact decimal digit arithmetic in TLA+ (TLC integers are 32-bit): TLC checks trichotomy, the unions >=,<=, NaN and the engine's representation-based comparison table over 64-bit boundary points; 257 (form, operator, constant) cases x 43 field values (i64::MIN..u64::MAX, signed zero, dyadic floats, 2^63 as float, NaN, infinities, numeric and odd strings, booleans, null, containers) are replayed; seeded random 64-bit values against random constants compared digit by digit.",
+         "note": COMMON_NOTE + "Floats are restricted to exactly representable short decimals; flt() of integers above 2^53 and str() of floats beyond 15 digits are left open.", "technique": T},
+ "C10": {"level": "TLC enumerates every document shape to depth 1 (thorough 2) under a root {a, b} with position-labelled leaves x every well-formed path of <= 3 (2) segments over {a,b,a[0],a[1],b[0]} and checks the engine's cursor walk against descent; every (document, key) is then asked of Object::find / Document::find on four representations and the returned value compared structurally. Seeded: dotted/indexed keys and nested mappings through Rule::matches on documents with arrays of objects.",
+         "note": COMMON_NOTE + "Ill-formed keys (a[0][1], a..b) are checked for totality only.", "technique": T},
+ "C11": {"level": "Every (rule, abstract document) of 600 (thorough 12k) seeded cases is matched through 8 representations (serde_yaml value and re-parsed text, serde_json value and re-parsed text, HashMap over std types i8..u64/f32/f64/Option/Vec/HashSet/nested maps, a hand-written Object with unsigned and with signed non-negative integers, a hand-written Document); TLC binds one denotation per (switch class, document) and rejects any disagreement.",
+         "note": COMMON_NOTE + "NaN/inf cannot be carried by JSON and are skipped there.", "technique": T},
+ "C12": {"level": "Per seeded case: each of 5 switch sets is optimised 4 times (printed expression must be identical - bound in the specification's `prints`), every document is matched from the main thread and from 4 threads sharing one &Rule in different orders; TLC requires every observation of a (switch class, document) to equal the bound denotation. The action property Pure (matching changes no rule state) is part of TauRule.",
+         "note": COMMON_NOTE + "Schedules of the real threads are sampled, not enumerated; cross-process determinism rests on the BTreeMap fix plus the repeated runs of quick/thorough with equal seeds.", "technique": T},
+ "C13": {"level": "validate() is specified as a function of the bound denotation of the same switch class (TauRule!ValidateOk): ok iff no true_positives example fails and no true_negatives example matches, else a Validation error naming exactly the failing examples (markers planted in the examples), err (not panic) for a non-mapping example. 800 (15k) seeded cases, unoptimised and two optimised forms.",
+         "note": COMMON_NOTE, "technique": T},
+ "C14": {"level": "Each object (unoptimised and optimised) is serialised, reloaded through from_str and from_value; the reloaded rule's detection and examples must equal the original's (canonical YAML comparison) and its verdicts are held against the denotation of the not-optimised class; from_str/from_value must agree on load outcome.",
+         "note": COMMON_NOTE + "Identifier order in the serialised text is HashMap order and is ignored.", "technique": T},
+ "C15": {"level": "The harness is built twice (default and feature ignore_case); both run the same seeded cases in which every string pattern is case-insensitive (default build writes the i prefix, ignore_case build does not); the merged trace is validated by TLC against one denotation and the case-insensitive language-layer oracle; the pattern-text model is TLC-checked with IcBuild = TRUE.",
+         "note": COMMON_NOTE, "technique": T},
+ "C16": {"level": "Every match is also made through a recording document; each find(key) on the root or a nested object must be a key the rule writes for that position (spec/TauKeys.tla: blocks and positions), never a synthetic matrix key; each document comes with two variants that differ only in fields no rule addresses (including one-character keys \\u{0}..) and must share its denotation. Four switch states per case.",
+         "note": COMMON_NOTE + "The recording document resolves paths with its own reference walk; number and order of calls are not constrained.", "technique": T},
+ "C17": {"level": "TLC checks on every vector and every permutation (arity <= 3, thorough 4) that the solver loops and the language layer are order-free for TRUE, and emits every commutative C06 case with its reversed writing as an alternative source; seeded random rules get three random reorderings of and/or operands, mapping entries, sequence entries and list members at positions not under a negation or none-of; TLC requires one denotation per case.",
+         "note": COMMON_NOTE, "technique": T},
+}
